@@ -291,7 +291,9 @@ class Program:
             anchors = os.path.join(os.path.dirname(os.path.dirname(
                 os.path.abspath(__file__))), 'anchors.json')
         if anchors and os.path.exists(anchors):
-            self._apply_aliases(json.load(open(anchors))['functions'])
+            canon = json.load(open(anchors))['functions']
+            self._apply_attr_aliases(canon)
+            self._apply_aliases(canon)
         self._infer()
 
     # ------------------------------------------------------------------
@@ -373,6 +375,70 @@ class Program:
                         'nested def/class in %s:%d' % (f.file, n.lineno))
 
     # ------------------------------------------------------------------
+    def _apply_attr_aliases(self, canon):
+        """Recognise renamed private data attributes: a canonical attribute
+        of a class (one its constructor used on the confirmed tree) that no
+        method of the class mentions any more is matched with a new
+        attribute that the constructor assigns now and that is used by
+        (nearly) the same methods; the attribute nodes are renamed to the
+        canonical name when the module is loaded, so every rule keeps
+        working and positions stay those of the source."""
+        self.renamed_attrs = {}
+        # an old name that is still mentioned anywhere (a stale site of an
+        # incomplete rename!) is not "renamed"
+        everywhere = {n.attr for tree in self.modules.values()
+                      for n in ast.walk(tree) if isinstance(n, ast.Attribute)}
+        for cname, cls in self.classes.items():
+            init = cls.methods.get('__init__')
+            cinit = canon.get(cname + '.__init__')
+            if init is None or cinit is None:
+                continue
+            now_users = {}
+            for m in cls.methods.values():
+                for n in ast.walk(m.node):
+                    if isinstance(n, ast.Attribute) and isinstance(
+                            n.value, ast.Name) and n.value.id == m.self_name:
+                        now_users.setdefault(n.attr, set()).add(m.name)
+            stored_now = {n.attr for a in ast.walk(init.node)
+                          if isinstance(a, ast.Assign) for n in a.targets
+                          if isinstance(n, ast.Attribute) and isinstance(
+                              n.value, ast.Name) and
+                          n.value.id == init.self_name}
+            old_users = {}
+            for q, fp in canon.items():
+                if fp.get('cls') == cname:
+                    for a in fp.get('attrs', []):
+                        old_users.setdefault(a, set()).add(q.split('.')[-1])
+            canon_attrs = [a for a in cinit.get('attrs', [])
+                           if a.startswith('_') and a not in cls.methods]
+            missing = [a for a in canon_attrs
+                       if a not in now_users and a not in everywhere]
+            new = [a for a in stored_now
+                   if a.startswith('_') and a not in old_users]
+            if not missing or not new:
+                continue
+            for a in missing:
+                scored = []
+                for b in new:
+                    ua, ub = old_users.get(a, set()), now_users.get(b, set())
+                    j = len(ua & ub) / max(1, len(ua | ub))
+                    scored.append((j, b))
+                scored.sort(reverse=True)
+                if scored and scored[0][0] >= 0.5 and (
+                        len(scored) == 1 or
+                        scored[0][0] - scored[1][0] >= 0.15):
+                    b = scored[0][1]
+                    if b in self.renamed_attrs.values():
+                        continue
+                    self.renamed_attrs[a] = b
+        if not self.renamed_attrs:
+            return
+        back = {b: a for a, b in self.renamed_attrs.items()}
+        for tree in self.modules.values():
+            for n in ast.walk(tree):
+                if isinstance(n, ast.Attribute) and n.attr in back:
+                    n.attr = back[n.attr]
+
     def _apply_aliases(self, canon):
         """Recognise renamed functions: a canonical function that is missing
         is matched, inside its class, with a function whose name is new and
@@ -430,6 +496,64 @@ class Program:
     def parent(self, node):
         return self._parents.get(id(node))
 
+    def _param_callees(self, f, name, depth=0):
+        if depth > 3 or f.is_public:
+            return []
+        key = ('pc', f.qualname, name)
+        memo = self.__dict__.setdefault('_pc_memo', {})
+        if key in memo:
+            return memo[key]
+        memo[key] = []
+        out = []
+        sites = self._raw_callers().get(f.qualname, [])
+        if not sites:
+            return []
+        for caller, call in sites:
+            a = self.bind_args(call, f).get(name)
+            if a is None or isinstance(a, list):
+                memo[key] = []
+                return []
+            got = []
+            if isinstance(a, ast.Attribute):
+                for rt in self.type_of(a.value, caller):
+                    if rt in self.classes:
+                        m = self.lookup_method(rt, a.attr)
+                        if m:
+                            got.append(m)
+            elif isinstance(a, ast.Name) and a.id in caller.all_param_names():
+                got = [g for g in self._param_callees(caller, a.id,
+                                                      depth + 1)]
+            if not got:
+                memo[key] = []
+                return []
+            for g in got:
+                if g not in out:
+                    out.append(g)
+        memo[key] = out
+        return out
+
+    def _raw_callers(self):
+        """callee qualname -> [(caller, call)] by syntactic method name
+        (used before/while resolution is computed): calls ``x.name(...)`` /
+        ``name(...)`` whose attribute or name equals the function's."""
+        if getattr(self, '_rawc', None) is None:
+            byname = {}
+            for g in self.funcs.values():
+                byname.setdefault(g.name, []).append(g)
+            rc = {}
+            for f in self.funcs.values():
+                for n in ast.walk(f.node):
+                    if not isinstance(n, ast.Call):
+                        continue
+                    nm = n.func.attr if isinstance(
+                        n.func, ast.Attribute) else (
+                            n.func.id if isinstance(n.func, ast.Name)
+                            else None)
+                    for g in byname.get(nm, []):
+                        rc.setdefault(g.qualname, []).append((f, n))
+            self._rawc = rc
+        return self._rawc
+
     def single_local_def(self, f, name):
         """The value of the only assignment to local ``name`` in f (None if
         it is assigned more than once or in another way)."""
@@ -438,13 +562,15 @@ class Program:
             if isinstance(n, ast.Assign):
                 for t in n.targets:
                     for x in ast.walk(t):
-                        if isinstance(x, ast.Name) and x.id == name:
+                        if isinstance(x, ast.Name) and x.id == name and \
+                                isinstance(x.ctx, ast.Store):
                             vals.append(n.value if t is x else None)
             elif isinstance(n, (ast.AugAssign, ast.For, ast.NamedExpr,
                                 ast.comprehension)):
                 tgt = n.target
                 for x in ast.walk(tgt):
-                    if isinstance(x, ast.Name) and x.id == name:
+                    if isinstance(x, ast.Name) and x.id == name and \
+                            isinstance(x.ctx, ast.Store):
                         vals.append(None)
             elif isinstance(n, ast.With):
                 for it in n.items:
@@ -833,8 +959,19 @@ class Program:
         if isinstance(fn, ast.Name):
             nm = fn.id
             if nm in f.all_param_names():
-                return ['USER']
+                # a parameter that every internal caller binds to a method
+                # or function of the package is a call of those (a shared
+                # helper that receives ``subbuilder._build_file``); anything
+                # else is a user callback
+                tg = self._param_callees(f, nm)
+                return tg if tg else ['USER']
             if self.is_local(f, nm):
+                v0 = self.single_local_def(f, nm)
+                if isinstance(v0, ast.Attribute):
+                    # ``read = file_.read`` ... ``read(n)``
+                    fake = ast.Call(func=v0, args=call.args,
+                                    keywords=call.keywords)
+                    return self.resolve_call(fake, f)
                 # a local bound once to getattr(self, name): the same
                 # dynamic dispatch, one statement earlier
                 v = self.single_local_def(f, nm)
